@@ -103,6 +103,19 @@ def eval_set(case):
         pass
     if describe(ds) != want:
         bad('guards/duplicate-id-changed-content', f'{describe(ds)}')
+    # ... also when both arrive in ONE call
+    try:
+        two = []
+        for _ in range(2):
+            d = Delegation(atype=T[t], delegation_id=did0, aformat=FMT[f0], pool_id=p0)
+            if di0 is not None:
+                d.set_details(mk_details(t, di0))
+            two.append(d)
+        fresh = Delegations(atype=T[t])
+        fresh.add_delegations(*two)
+        bad('guards/duplicate-id-accepted/one-call', f'two delegations with id {did0} accepted by one add_delegations call')
+    except Exception:
+        pass
     try:
         d = Delegation(atype=T[t], delegation_id='x', aformat=FMT['S'])
         d.set_details(mk_details(other, 0))
